@@ -14,8 +14,8 @@ from engine.part import Part
 from harness import common
 from harness.common import spec
 
-FUEL_FACTOR = 40
-FUEL_SLACK = 640
+FUEL_FACTOR = 4
+FUEL_SLACK = 64
 
 JUDGE = {
     # returns True when the property holds for this run
@@ -87,7 +87,11 @@ def be(n, width):
     return [(n >> (8 * (width - 1 - i))) & 255 for i in range(width)]
 ''' .replace('%%', '%')
 
-REST_LEN = {'t': 1, 'b': 1, 'B': 1, 's': 2, 'u': 2, 'V': 1, 'nul': 1, 'unk': 1}   # default 4
+REST_LEN = {'t': 1, 'b': 1, 'B': 1, 's': 2, 'u': 2, 'V': 1, 'nul': 1, 'unk': 1,
+            'l': 8, 'L': 8, 'd': 8, 'T': 8, 'D': 1}   # default 4
+# Decimal arithmetic is realized (enumerated) by CrossHair: only the scale octet is symbolic, the
+# unscaled value is fixed
+REST_SUFFIX = {'D': [0xFF, 0xFF, 0xFB, 0x2E]}
 
 
 def rest_len(tagname):
@@ -160,9 +164,10 @@ def parts_for(mode, tier, raw_max, m_extra, hdr_extra, table_classes, table_tags
         for tagch, tagname in table_tags:
             rl = rest_len(tagname)
             body = ('def body(ch, ln, key, rest):\n'
-                    '    tbl = hx.blist(ln, 4) + [1, key, %d] + hx.blist(rest, %d)\n'
+                    '    tbl = hx.blist(ln, 4) + [1, key, %d] + hx.blist(rest, %d) + %r\n'
                     '    d = envelope(1, ch, be(%d, 4) + %r + tbl + %r)\n'
-                    '    return judge(frame.unmarshal, d)\n' % (ord(tagch), rl, m['index'], pre_b, suf_b))
+                    '    return judge(frame.unmarshal, d)\n'
+                    % (ord(tagch), rl, REST_SUFFIX.get(tagname, []), m['index'], pre_b, suf_b))
             parts.append(Part(
                 name='mt_%s_%s' % (common.safe(cname), tagname),
                 params=[('ch', 'int'), ('ln', 'bytes'), ('key', 'int'), ('rest', 'bytes')],
@@ -170,7 +175,7 @@ def parts_for(mode, tier, raw_max, m_extra, hdr_extra, table_classes, table_tags
                 body=body, prelude=prelude, timeout=timeout, family='method_table_envelope',
                 bound='%s: table = [4 arbitrary length bytes][key len 1][arbitrary key byte][tag %r]'
                       '[%d arbitrary bytes], other arguments minimal' % (cname, tagch, rl),
-                rep={'ch': 1, 'ln': {'__bytes__': '%08x' % (3 + rl)}, 'key': 107,
+                rep={'ch': 1, 'ln': {'__bytes__': '%08x' % (3 + rl + len(REST_SUFFIX.get(tagname, [])))}, 'key': 107,
                      'rest': {'__bytes__': '00' * rl}}))
 
     # ---- content headers
@@ -195,17 +200,27 @@ def parts_for(mode, tier, raw_max, m_extra, hdr_extra, table_classes, table_tags
     for tagch, tagname in table_tags:
         rl = rest_len(tagname)
         body = ('def body(ch, ln, key, rest):\n'
-                '    tbl = hx.blist(ln, 4) + [1, key, %d] + hx.blist(rest, %d)\n'
+                '    tbl = hx.blist(ln, 4) + [1, key, %d] + hx.blist(rest, %d) + %r\n'
                 '    d = envelope(2, ch, [0, 60, 0, 0] + [0] * 8 + [0x20, 0x00] + tbl)\n'
-                '    return judge(frame.unmarshal, d)\n' % (ord(tagch), rl))
+                '    return judge(frame.unmarshal, d)\n' % (ord(tagch), rl, REST_SUFFIX.get(tagname, [])))
         parts.append(Part(
             name='hdrt_%s' % tagname,
             params=[('ch', 'int'), ('ln', 'bytes'), ('key', 'int'), ('rest', 'bytes')],
             pre=['0 <= ch <= 65535', 'len(ln) == 4', '0 <= key <= 255', 'len(rest) == %d' % rl],
             body=body, prelude=prelude, timeout=timeout, family='header_table_envelope',
             bound='content header with only the headers table present; table bytes as in mt_*, tag %r' % tagch,
-            rep={'ch': 1, 'ln': {'__bytes__': '%08x' % (3 + rl)}, 'key': 107,
+            rep={'ch': 1, 'ln': {'__bytes__': '%08x' % (3 + rl + len(REST_SUFFIX.get(tagname, [])))}, 'key': 107,
                  'rest': {'__bytes__': '00' * rl}}))
+
+    parts.append(Part(
+        name='hdr_ts', params=[('ch', 'int'), ('ts', 'bytes')],
+        pre=['0 <= ch <= 65535', 'len(ts) == 8'],
+        body=('def body(ch, ts):\n'
+              '    d = envelope(2, ch, [0, 60, 0, 0] + [0] * 8 + [0x00, 0x40] + hx.blist(ts, 8))\n'
+              '    return judge(frame.unmarshal, d)\n'),
+        prelude=prelude, timeout=timeout, family='header_envelope',
+        bound='content header with only the timestamp property present: all 2^64 timestamp values',
+        rep={'ch': 1, 'ts': {'__bytes__': 'ffffffffffffffff'}}))
 
     # ---- bare decoders (C08)
     if dec_max:
